@@ -266,6 +266,9 @@ def _gen_case(rng, tier):
         case['stages'] = {'before': [rng.choice(['forms_quiet', 'json'])]}
     elif r < 0.2:
         case['stages'] = {'lazy': True}
+    if rng.random() < 0.08:
+        # another application of the same process answers request errors in its own (non-4xx) way
+        case['foreign_app'] = True
     return case
 
 
@@ -362,7 +365,7 @@ def _run_case(case):
     o = body_request(wire, case['sched'], B=case['B'], cl=cl, chunked=chunked, ctype=case['ctype'],
                      tempmode='mem', touch=tuple(case['touch']), stages=case.get('stages'),
                      M=case.get('M'), retry=case.get('retry', 0), keep_alive=bool(case.get('keep_alive')),
-                     errors_map=case.get('errors_map'))
+                     errors_map=case.get('errors_map'), foreign_app=bool(case.get('foreign_app')))
     code = o.resp.code
     e2 = o.seen.pop('retry_exc', None)
     o.seen.pop('retry_copy_exc', None)
